@@ -634,6 +634,19 @@ pub fn c07_case(rng: &mut Rng, max_objects: usize) -> String {
                 &grad_all(g2, cap),
             );
         }
+        if start.hit_objects.len() <= 40 && d.clone().inspect().passed_objects.is_none() {
+            // the last value of the direct gradual route == the one-shot calculation on the
+            // explicitly converted map (the two routes share no constructor)
+            if let Ok(g) = GradualDifficulty::new_with_mode(d.clone(), &start, tm) {
+                if let Some(last) = g.last() {
+                    f.eq(
+                        "GradualDifficulty::new_with_mode(map).last() == calculate(converted)",
+                        &last.json(),
+                        &d.calculate(&explicit).json(),
+                    );
+                }
+            }
+        }
         if explicit.hit_objects.len() <= 40 {
             // the thin public wrappers around the gradual constructors
             let cap = explicit.hit_objects.len() * 3 + 8;
